@@ -476,16 +476,24 @@ async fn on_commitment_revocation(
                 }
                 Err(e) => match e {
                     AddAppointmentError::RequestError(e) => {
+                        // Either the tower cannot be reached or it sent back something that cannot be
+                        // understood (e.g. a proxy error page). In both cases we have nothing to prove the
+                        // tower took the appointment, so it is kept as pending and retried later.
                         if e.is_connection() {
                             log::warn!(
                                 "{tower_id} cannot be reached. Adding {} to pending appointments",
                                 appointment.locator
                             );
-                            let mut state = plugin.state().lock().unwrap();
-                            state.set_tower_status(tower_id, TowerStatus::TemporaryUnreachable);
-                            state.add_pending_appointment(tower_id, &appointment);
-                            send_to_retrier(&state, tower_id, appointment.locator);
+                        } else {
+                            log::warn!(
+                                "{tower_id} sent an unexpected response ({e:?}). Adding {} to pending appointments",
+                                appointment.locator
+                            );
                         }
+                        let mut state = plugin.state().lock().unwrap();
+                        state.set_tower_status(tower_id, TowerStatus::TemporaryUnreachable);
+                        state.add_pending_appointment(tower_id, &appointment);
+                        send_to_retrier(&state, tower_id, appointment.locator);
                     }
                     AddAppointmentError::ApiError(e) => match e.error_code {
                         errors::INVALID_SIGNATURE_OR_SUBSCRIPTION_ERROR => {
